@@ -167,7 +167,7 @@ var c09Table = []c09Row{
 	{",", "UNION", 10}, {";", "BLOCK", 10}, {":", "CREATE_MAP", 15}, {"or", "OR", 20}, {"and", "AND", 20}, {"|", "PIPE", 30}, {"ireduce", "REDUCE", 35},
 	{"=", "ASSIGN", 40}, {"|=", "ASSIGN", 40}, {"+=", "ADD_ASSIGN", 40}, {"-=", "SUBTRACT_ASSIGN", 40}, {"as", "ASSIGN_VARIABLE", 40},
 	{"==", "EQUALS", 40}, {"!=", "NOT_EQUALS", 40}, {"<", "COMPARE", 40}, {"<=", "COMPARE", 40}, {">", "COMPARE", 40}, {">=", "COMPARE", 40},
-	{"*", "MULTIPLY", 42}, {"*=", "MULTIPLY_ASSIGN", 42}, {"/", "DIVIDE", 42}, {"%", "MODULO", 42}, {"+", "ADD", 42}, {"-", "SUBTRACT", 42}, {"//", "ALTERNATIVE", 42},
+	{"*", "MULTIPLY", 43}, {"*=", "MULTIPLY_ASSIGN", 42}, {"/", "DIVIDE", 43}, {"%", "MODULO", 43}, {"+", "ADD", 42}, {"-", "SUBTRACT", 42}, {"//", "ALTERNATIVE", 42},
 }
 
 // VerifC09Table: each binary operator spelling lexes (real rule table, first match wins) to the documented
@@ -422,4 +422,74 @@ func VerifC09PostTraverse() {
 		verifAssert(got == want, "C09/postfix-traversal-means-something-else "+label)
 	}
 	verifCover("C09/postfix/end")
+}
+
+// VerifC09Arithmetic: unparenthesised integer arithmetic means what arithmetic means — multiplication, division and
+// remainder bind tighter than addition and subtraction, and operators of one strength group from the left
+// (10 - 3 - 2 is 5). Operands are solver integers substituted into the parsed tree.
+var c09ArithExprs = []string{
+	"7770001 - 7770002 - 7770003", "7770001 - 7770002 + 7770003", "7770001 + 7770002 - 7770003", "7770001 * 7770002 + 7770003", "7770001 + 7770002 * 7770003",
+	"7770001 - 7770002 * 7770003", "7770001 * 7770002 - 7770003", "7770001 * 7770002 * 7770003", "7770001 % 7770002 % 7770003", "7770001 * 7770002 % 7770003",
+	"7770001 + 7770002 % 7770003", "7770001 % 7770002 + 7770003", "7770001 - 7770002 - 7770003 - 7770001",
+}
+
+func VerifC09Arithmetic() {
+	which := verifChoice("expr", len(c09ArithExprs))
+	a, b, c := verifInt64("a"), verifInt64("b"), verifInt64("c")
+	for _, v := range []int64{a, b, c} {
+		verifAssume(verifAnd(v > -1000, v < 1000))
+	}
+	var want int64
+	needNonZero := false
+	switch which {
+	case 0:
+		want = a - b - c
+	case 1:
+		want = a - b + c
+	case 2:
+		want = a + b - c
+	case 3:
+		want = a*b + c
+	case 4:
+		want = a + b*c
+	case 5:
+		want = a - b*c
+	case 6:
+		want = a*b - c
+	case 7:
+		want = a * b * c
+	case 8:
+		verifAssume(verifAnd(b > 0, c > 0))
+		verifAssume(a >= 0)
+		want = a % b % c
+		needNonZero = true
+	case 9:
+		verifAssume(verifAnd(c > 0, verifAnd(a >= 0, b >= 0)))
+		want = a * b % c
+		needNonZero = true
+	case 10:
+		verifAssume(verifAnd(c > 0, b >= 0))
+		want = a + b%c
+		needNonZero = true
+	case 11:
+		verifAssume(verifAnd(b > 0, a >= 0))
+		want = a%b + c
+		needNonZero = true
+	default:
+		want = a - b - c - a
+	}
+	_ = needNonZero
+	e := vParse(c09ArithExprs[which])
+	vSubst(e, "7770001", "!!int", verifItoa(a))
+	vSubst(e, "7770002", "!!int", verifItoa(b))
+	vSubst(e, "7770003", "!!int", verifItoa(c))
+	res, err := vEval(e, vDoc(vNull()))
+	verifAssert(err == nil && res.Len() == 1, "C09/arithmetic-error expr="+c09ArithExprs[which])
+	if err != nil || res.Len() != 1 {
+		return
+	}
+	got := res.Front().Value.(*CandidateNode).Value
+	verifObserve("got", got)
+	verifAssert(verifEqStr(got, verifItoa(want)), "C09/unparenthesised-arithmetic-means-something-else expr="+c09ArithExprs[which])
+	verifCover("C09/arith/end")
 }
